@@ -532,6 +532,14 @@ def fam_enum(tier, seed):
             if len(ds) >= space:
                 ds = ds[:-1]
             add(make_enum("E", bits, ds, "false", radix="hex"), tags=["nonexh", "boundary"])
+    # small discriminants in wide storage (a conversion that narrows the raw value would alias them)
+    for bits in (9, 10, 12, 15, 16, 17, 20, 24, 31, 32, 33, 40, 48, 63, 64):
+        add(make_enum("E", bits, [0, 5, 200], "false"), tags=["nonexh", "small-discriminants"])
+        add(make_enum("E", bits, [255], None), tags=["nonexh", "small-discriminants"])
+        if bits >= 17:
+            add(make_enum("E", bits, [1, 0x1234, 0xFFFF], "false", radix="hex"), tags=["nonexh", "small-discriminants"])
+        if bits >= 33:
+            add(make_enum("E", bits, [2, 0x12345678, 0xFFFFFFFF], "false", radix="hex"), tags=["nonexh", "small-discriminants"])
     # 2^N - 1 variants (one missing), N <= 8
     for bits in range(1, 9):
         space = 1 << bits
